@@ -51,7 +51,7 @@ func init() {
 				{Name: "codec-concurrent", Variant: "race", Cases: ncc, Shards: 4, Run: c18concurrentCase, CaseTimeout: 120 * time.Second,
 					Required: []string{"concurrent_encodes"}},
 				{Name: "wire", Variant: "race", Cases: nw, Run: c18wireCase, CaseTimeout: 120 * time.Second,
-					Required: []string{"sessions", "sessions_compression_negotiated", "sessions_compressor_not_advertised", "requests_compressed", "requests_uncompressed", "replies_compressed_ok", "hostile_flagged_without_compressor", "hostile_corrupt_body", "sessions_on_mixed_clusters"}},
+					Required: []string{"sessions", "sessions_compression_negotiated", "sessions_compressor_not_advertised", "requests_compressed", "requests_uncompressed", "replies_compressed_ok", "hostile_flagged_without_compressor", "hostile_corrupt_body", "sessions_on_mixed_clusters", "hostile_flagged_unsolicited_frames"}},
 			}
 		},
 	})
@@ -838,6 +838,25 @@ func c18wireCase(c *runner.Ctx, i int) {
 		c.Violation("C18:wire:"+hostileKind+"-reply-accepted", fmt.Sprintf("a %s reply (%s) was reported as success: token %q, %d data bytes (%s)", map[string]string{"corrupt": "corrupt compressed", "flagged": "compressed-flagged, on a connection without a compressor"}[hostileKind], hj.kind, tok, len(data), key), wit(map[string]interface{}{"job": fmt.Sprintf("%+v", hj)}))
 	} else {
 		c.SetAdd("hostile_reply_errors", clipS(herr.Error()))
+	}
+	if !negotiated {
+		// frames nobody asked for that carry the compression flag on connections without a compressor: a pushed EVENT
+		// (stream -1) and a frame on the reserved stream 0. They are errors for the connection, not for the process.
+		for _, sc := range cl.AllConns() {
+			if sc.C.Closed() || sc.Driver.Closed() || !sc.Ready() {
+				continue
+			}
+			stream := []int{-1, 0}[r.Intn(2)]
+			body := cqlref.BodyEvent(sc.Version, &cqlref.EventSpec{Kind: "STATUS_CHANGE", Change: "UP", IP: []byte{10, 1, 2, 3}, Port: 9042})
+			op := byte(cqlref.OpEvent)
+			if stream == 0 {
+				body, op = cqlref.BodyVoid(), cqlref.OpResult
+			}
+			f, _ := cqlref.BuildFrame(sc.Version, stream, op, nil, body, func(b []byte) []byte { return cqlref.SnappyEncodeLiteral(b) })
+			sc.WriteRaw(f)
+			c.Add("hostile_flagged_unsolicited_frames", 1)
+		}
+		time.Sleep(5 * time.Millisecond)
 	}
 	// the session must still be usable (possibly after a reconnect)
 	okj := job{kind: "query", mode: "OK", token: fmt.Sprintf("a%d", i), rsize: 100, psize: 10}
